@@ -475,6 +475,148 @@ async fn routing_case(rep: &mut Report, rng: &mut Rng, tr: Transport) {
   let _ = tokio::time::timeout(Duration::from_secs(12), ctx.term()).await;
 }
 
+/// (parked reply) a reply to peer A cannot be written (A is a pipelining DEALER that never reads, SNDHWM/RCVHWM 1, large
+/// replies) and send() parks until SNDTIMEO; meanwhile another task on a clone receives peer B's request - legitimately,
+/// the socket is ready to receive while the send is parked. When the parked send has failed, the reply the application
+/// sends next answers B's request and must reach B, never A; A must only ever see replies to its own requests.
+async fn parked_reply_case(rep: &mut Report, tr: Transport, sndtimeo_ms: i32) {
+  let ctx = util::new_ctx();
+  let r = ctx.socket(SocketType::Rep).unwrap();
+  util::set_i32(&r, opt::SNDHWM, 1).await;
+  util::set_i32(&r, opt::SNDTIMEO, sndtimeo_ms).await;
+  util::set_i32(&r, opt::RCVTIMEO, 2000).await;
+  let ep = match util::bind_fresh(&r, tr).await {
+    Ok(e) => e,
+    Err(e) => {
+      rep.inconclusive(format!("bind {e}"));
+      return;
+    }
+  };
+  let a_ctx = util::new_ctx();
+  let a = a_ctx.socket(SocketType::Dealer).unwrap();
+  util::set_i32(&a, opt::RCVHWM, 1).await;
+  util::set_i32(&a, opt::RCVTIMEO, 300).await;
+  util::set_i32(&a, opt::RCVBUF, 16 * 1024).await;
+  let b_ctx = util::new_ctx();
+  let b = b_ctx.socket(SocketType::Req).unwrap();
+  util::set_i32(&b, opt::RCVTIMEO, (sndtimeo_ms + 4000) * util::slow_factor() as i32).await;
+  let _ = a.connect(&ep).await;
+  let _ = b.connect(&ep).await;
+  tokio::time::sleep(Duration::from_millis(300)).await;
+  let cfg = format!("REP over {} (SNDHWM 1, SNDTIMEO {} ms), peer A a pipelining DEALER that never reads, peer B a REQ", tr.name(), sndtimeo_ms);
+  let big = vec![0x41u8; 512 * 1024];
+  let mut parked: Option<tokio::task::JoinHandle<Result<(), rzmq::ZmqError>>> = None;
+  let mut answered_a = 0;
+  for k in 0..40 {
+    // A sends one more request without ever reading a reply (rzmq's DEALER adds the empty delimiter itself)
+    let _ = a.send(util::msg(format!("A-req-{}", k).into_bytes(), false)).await;
+    match r.recv().await {
+      Ok(m) if m.data().map_or(false, |d| d.starts_with(b"A-req-")) => {}
+      other => {
+        rep.note(format!("parked_reply: recv before parking returned {:?}", other.map(|m| String::from_utf8_lossy(&m.data().unwrap_or(&[])[..m.size().min(16)]).to_string()).map_err(|e| util::err_kind(&e))));
+        break;
+      }
+    }
+    let r2 = r.clone();
+    let mut body = b"reply-A:".to_vec();
+    body.extend_from_slice(&big);
+    let mut h = tokio::spawn(async move { r2.send(util::msg(body, false)).await });
+    match tokio::time::timeout(Duration::from_millis(200), &mut h).await {
+      Ok(Ok(Ok(()))) => answered_a += 1,
+      Ok(other) => {
+        rep.note(format!("parked_reply: send #{} ended within 200 ms with {:?}", answered_a, other.map(|r| r.map_err(|e| util::err_kind(&e)))));
+        break; // failed at once (would-block): nothing parked in this mode
+      }
+      Err(_) => {
+        parked = Some(h);
+        break;
+      }
+    }
+  }
+  rep.case(&("parked_reply", tr, sndtimeo_ms), true);
+  let Some(parked) = parked else {
+    rep.count("parked_reply_send_never_parked", 1);
+    let _ = tokio::time::timeout(Duration::from_secs(10), ctx.term()).await;
+    let _ = tokio::time::timeout(Duration::from_secs(10), a_ctx.term()).await;
+    let _ = tokio::time::timeout(Duration::from_secs(10), b_ctx.term()).await;
+    return;
+  };
+  rep.count("parked_reply_send_parked", 1);
+  // while the reply to A is parked: B's request arrives and another task takes it
+  let b2 = b.clone();
+  let b_task = tokio::spawn(async move {
+    let _ = b2.send(util::msg(b"B-req-0".to_vec(), false)).await;
+    b2.recv().await.map(|m| m.data().unwrap_or(&[]).to_vec())
+  });
+  let mut got_b_request = false;
+  for _ in 0..10 {
+    match r.recv().await {
+      Ok(m) if m.data() == Some(b"B-req-0") => {
+        got_b_request = true;
+        break;
+      }
+      Ok(_) => {}
+      Err(_) => {}
+    }
+  }
+  // the parked send finishes (it is expected to fail with a timeout)
+  let parked_result = tokio::time::timeout(util::scaled(Duration::from_millis(sndtimeo_ms as u64 + 3000)), parked).await;
+  let parked_desc = match &parked_result {
+    Ok(Ok(Ok(()))) => "Ok".to_string(),
+    Ok(Ok(Err(e))) => util::err_kind(e),
+    _ => "still pending".to_string(),
+  };
+  if !got_b_request {
+    // the socket refused to receive while the send was parked: nothing to route, not this scenario
+    rep.count("parked_reply_b_request_not_received_while_parked", 1);
+  } else {
+    // A finally starts reading (its replies so far), so that nothing is in the way of any peer any more
+    let mut a_foreign: Vec<String> = vec![];
+    let mut a_seen = 0;
+    for _ in 0..3 {
+      if let Ok(m) = a.recv_multipart().await {
+        a_seen += 1;
+        for f in m {
+          let d = f.data().unwrap_or(&[]);
+          if !d.is_empty() && !d.starts_with(b"reply-A:") {
+            a_foreign.push(String::from_utf8_lossy(&d[..d.len().min(24)]).to_string());
+          }
+        }
+      }
+    }
+    let sent_b = r.send(util::msg(b"reply-B-0".to_vec(), false)).await;
+    let b_got = tokio::time::timeout(util::scaled(Duration::from_secs(8)), b_task).await.ok().and_then(|x| x.ok());
+    // drain A: it must only see replies to its own requests
+    let mut idle = 0;
+    while idle < 3 && a_seen < 200 {
+      match a.recv_multipart().await {
+        Ok(m) => {
+          idle = 0;
+          a_seen += 1;
+          for f in m {
+            let d = f.data().unwrap_or(&[]);
+            if !d.is_empty() && !d.starts_with(b"reply-A:") {
+              a_foreign.push(String::from_utf8_lossy(&d[..d.len().min(24)]).to_string());
+            }
+          }
+        }
+        Err(_) => idle += 1,
+      }
+    }
+    let b_ok = matches!(&b_got, Some(Ok(d)) if d == b"reply-B-0");
+    if !a_foreign.is_empty() || !b_ok {
+      rep.violation(
+        format!("reply_misrouted_after_parked_send|{}", if a_foreign.is_empty() { "requester_got_nothing" } else { "delivered_to_other_peer" }),
+        format!("{}: the reply to A parked and ended with {}; B's request was received meanwhile; the next send (reply-B-0) returned {:?}; B received {:?}; A received foreign replies {:?}", cfg, parked_desc, sent_b.as_ref().map_err(|e| util::err_kind(e)), b_got.as_ref().map(|r| r.as_ref().map(|d| String::from_utf8_lossy(d).to_string()).map_err(|e| util::err_kind(e))), a_foreign),
+        json!({"config": cfg, "replies_to_a_before_parking": answered_a, "parked_send": parked_desc, "a_foreign": a_foreign}),
+      );
+    }
+  }
+  let _ = tokio::time::timeout(Duration::from_secs(10), ctx.term()).await;
+  let _ = tokio::time::timeout(Duration::from_secs(10), a_ctx.term()).await;
+  let _ = tokio::time::timeout(Duration::from_secs(10), b_ctx.term()).await;
+}
+
 fn main() {
   let args = Args::parse();
   util::install_panic_watch();
@@ -492,6 +634,9 @@ fn main() {
       }
       for tr in [Transport::Tcp, Transport::Inproc, Transport::Ipc] {
         rt.block_on(routing_case(&mut rep, &mut rng, tr));
+      }
+      for (tr, to) in [(Transport::Tcp, 1500), (Transport::Ipc, 800), (Transport::Tcp, 300)] {
+        rt.block_on(parked_reply_case(&mut rep, tr, to));
       }
       util::cleanup_ipc_dir();
     }
